@@ -65,6 +65,15 @@ func documentedDefaults(c *Ctx, id string) {
 	for fn := range steps {
 		c.see(fn)
 		allInstrs(fn, func(in ssa.Instruction) {
+			if call, isCall := in.(*ssa.Call); isCall {
+				// a default written through a set-when-unset helper: fn(&c.X, K)
+				if h := call.Common().StaticCallee(); h != nil && w.inModule(h) && len(call.Common().Args) == 2 && defaultSetter(w, h) && len(guardsOf(in.Block())) == 0 {
+					if target := w.Origin(call.Common().Args[0]); strings.HasPrefix(target, "&recv.") {
+						stored[strings.TrimPrefix(target, "&recv.")] = w.Origin(call.Common().Args[1])
+					}
+				}
+				return
+			}
 			st, ok := in.(*ssa.Store)
 			if !ok {
 				return
